@@ -126,7 +126,7 @@ fn collect_case<N: ArrayLength, E: Elem>(entry: u8, c: usize, hint: Hint, fused:
             let verdict: Option<Vec<u32>> = match r {
                 Ok(v) => v,
                 Err(PanicKind::Other(m)) => {
-                    let want = format!("GenericArray::from_iter expected {n} items");
+                    let want = format!("expected {n} items");
                     if (entry == 1 || entry == 3) && m.contains(&want) {
                         None
                     } else {
